@@ -42,6 +42,7 @@ Step ==
           [] e.op = "Volume" -> VolumeOK(e)
           [] e.op = "Naturals" -> NaturalsOK(e)
           [] e.op = "CheckDm" -> CheckDmOK(e)
+          [] e.op = "CheckDmEdge" -> (~e.raised_other /\ e.accepted = (\A i \in 1..Len(e.spec) : e.spec[i] >= e.lo /\ e.spec[i] <= e.hi))
           [] e.op = "Kernel1d" -> Kernel1dOK(e)
           [] e.op = "Kernel3d" -> Kernel3dOK(e)
           [] e.op = "Equiv" -> EquivOK(e)
